@@ -113,7 +113,8 @@ fn cmd_fmt(arg: &str) -> String {
         ));
         ps.push(format!("P({parg},{},{tr})", mods as u8));
     }
-    format!("ok {} | ph={}", fs.join(" "), ps.join(" "))
+    let lits = pieces.iter().filter(|p| matches!(p, Piece::Lit(_))).count();
+    format!("ok {} | ph={} | pieces={} lits={}", fs.join(" "), ps.join(" "), pieces.len(), lits)
 }
 
 /// `lex <hex>`: per character `s` (id start incl. `_`), `c` (id continue), `w` whitespace, `-`.
